@@ -7,10 +7,15 @@ if [ -n "$(git -C /repo status --porcelain --untracked-files=no)" ]; then echo "
 git -C /repo apply --check "$patch" || { echo "patch does not apply"; exit 3; }
 git -C /repo apply "$patch"
 trap 'git -C /repo checkout -- . ' EXIT
-# many checks: rebuild every harness binary in one parallel cargo invocation first, so that the
-# per-check builds below are no-ops
-if [ $# -ge 5 ]; then
-  ( cd "$V/harness" && CARGO_NET_OFFLINE=true CARGO_TARGET_DIR="$V/target" cargo build --offline --profile release -p checks --bins >"$V/target/mut-build.log" 2>&1 )
+# rebuild the needed harness binaries of package `checks` in one parallel cargo invocation, so that
+# the per-check builds below are no-ops
+bins=""
+for id in "$@"; do
+  b="$(echo "$id" | tr 'A-Z' 'a-z')"
+  case "$b" in c16|c18) ;; *) bins="$bins --bin $b" ;; esac
+done
+if [ -n "$bins" ]; then
+  ( cd "$V/harness" && CARGO_NET_OFFLINE=true CARGO_TARGET_DIR="$V/target" cargo build --offline --profile release -p checks $bins >"$V/target/mut-build.log" 2>&1 )
 fi
 for id in "$@"; do
   "$V/check" "$id" "${TIER:-quick}" >"$V/target/mut-$id.log" 2>&1; rc=$?
